@@ -1,28 +1,43 @@
 //! C20 — the shipped test assertions accept exactly equal collections.
 //!
-//! Request:  `ASSERT <eq|unord|kv|grp|maps> <A> | <B>`   answer: `PASS` | `PANIC`
+//! Request:  `ASSERT <eq|unord|kv|grp|maps>[/P|/S] <A> | <B>`   answer: `PASS` | `PANIC`
 //!   eq/unord : A = comma-separated ints (empty list = `-`)
 //!   kv       : rows `k:v`
 //!   grp      : rows `k:v.v.v` (empty group = `k:`)
 //!   maps     : rows `k:v` = the sequence of `HashMap::insert` calls that builds each map (a repeated key
 //!              overwrites), compared with `assert_maps_equal`
-//! Request:  `ASSERT size <A> <n>` | `ASSERT contains <A> <x>` | `ASSERT <all|any|none> <pred> <A>`
+//!   suffix   : the Rust type the generic assertion is instantiated with (elements, keys AND values):
+//!              none = `i64`; `/P` = `struct P(i64,i64)` — derived `Eq`/`Ord`, a LOSSY `Debug` (prints field 0
+//!              only: `P(0,0)` and `P(0,1)` print alike) and a WEAK `Hash` (one bit reaches the hasher, so
+//!              unequal elements collide all the time), integer x -> `P(x div 2, x mod 2)`; `/S` = `String`,
+//!              x -> `"s{x}"` (heap type; `Ord` is lexicographic, "s10" < "s2"). `maps/P` additionally uses a
+//!              non-default `BuildHasher` whose hasher returns 0 for every key. Both embeddings are injective,
+//!              so the reference verdicts are computed on the integers.
+//! Request:  `ASSERT size <A> <n>` | `ASSERT contains[/P|/S] <A> <x>` | `ASSERT <all|any|none> <pred> <A>`
 //!   pred     : `true` `false` `even` `odd` `neg` `lt:<n>` `eq:<n>` `ne:<n>` (a closed library of closures)
+//! Request:  `ASSERT jsonl <F> | <E>`, `ASSERT csv <F> | <E>`: see `c20_files.rs`.
 //! Real side: the real assertion under catch_unwind. Oracle: reference multiset / sequence
 //! equality computed by sorting and counting, independent of model and implementation.
 //!   kv  : passes <=> the two row collections are equal as multisets, for EVERY input (repeated keys
 //!         included; `kv-rejects-equal-multisets-with-repeated-key` was a known finding until the
 //!         `fix:` commit that compares runs of equal keys as multisets, it must not occur any more).
-//!   grp : passes <=> the two collections are equal as multisets of groups, a group being a key with a
-//!         multiset of values, for EVERY input (repeated keys included): reference = equality of the
-//!         normal forms (every group's values sorted, then the rows sorted). For grouped data (keys
-//!         pairwise distinct on a side) this is the property's literal right-hand side (same multiset of
-//!         keys and, for every key, multiset-equal groups); the two references are cross-checked there.
-//!         `grp-rejects-equal-multisets-with-repeated-key` was the defect repaired by the second grouped
-//!         `fix:` commit ([(0,[1]),(0,[2])] vs [(0,[2]),(0,[1])] panicked); it must not occur any more.
+//!   grp : DECISION (review E, round 3). The property says "for grouped data: the same keys and, per key, the
+//!         same multiset of values". Grouped data = what `group_by_key` produces = ONE row per key. The oracle
+//!         therefore judges exactly the inputs in which BOTH sides have pairwise distinct keys:
+//!         passes <=> same set of keys and, for every key, multiset-equal value lists (the literal right-hand
+//!         side; cross-checked against equality of the normal forms). Inputs in which a key occurs in several
+//!         rows of a side are NOT grouped data; the text does not say whether they are to be compared as
+//!         multisets of groups (what the code does: `[(0,[1,2]),(0,[])]` vs `[(0,[1]),(0,[2])]` panics) or by
+//!         the union of the values per key (which would accept that pair), so NO verdict is demanded there:
+//!         they are still generated and executed, the real answer must agree with the Lean model (which is
+//!         proved to decide "equal as multisets of groups", `assertGrouped_iff_groups`) — a change of behaviour
+//!         there is a model/implementation disagreement, not an oracle failure — and three counters
+//!         (`grp:repeated-key:*`) record how the real answers relate to the two readings.
 //!   maps: passes <=> the two maps have the same entries (reference: last value per key, sorted).
 //!   size / contains / all / any / none: passes <=> len == n / occurrences > 0 / number of satisfying
 //!         elements == len / > 0 / == 0.
+//! Nothing here depends on wall-clock time, machine load or statistics: every verdict is a deterministic
+//! function of the generated input.
 
 use crate::ctx::{Ctx, guarded};
 use ironbeam::testing::{
@@ -31,11 +46,53 @@ use ironbeam::testing::{
     assert_kv_collections_equal, assert_maps_equal, assert_none,
 };
 use std::collections::HashMap;
+use std::fmt::Debug;
+use std::hash::{BuildHasher, BuildHasherDefault, Hash, Hasher};
 
-fn enc_ints(a: &[i64]) -> String {
+/// the element / key / value types the generic assertions are instantiated with
+pub trait Elem: Clone + Debug + Eq + Hash + Ord {
+    const SUF: &'static str;
+    fn emb(x: i64) -> Self;
+}
+impl Elem for i64 {
+    const SUF: &'static str = "";
+    fn emb(x: i64) -> Self { x }
+}
+/// derived equality and order, LOSSY `Debug`, WEAK `Hash` (both lawful: equal values print / hash alike)
+#[derive(Clone, PartialEq, Eq, PartialOrd, Ord)]
+pub struct P(pub i64, pub i64);
+impl Debug for P {
+    fn fmt(&self, f: &mut std::fmt::Formatter<'_>) -> std::fmt::Result { write!(f, "P({})", self.0) }
+}
+impl Hash for P {
+    fn hash<H: Hasher>(&self, h: &mut H) { h.write_u8((self.0 & 1) as u8); }
+}
+impl Elem for P {
+    const SUF: &'static str = "/P";
+    fn emb(x: i64) -> Self { P(x.div_euclid(2), x.rem_euclid(2)) }
+}
+impl Elem for String {
+    const SUF: &'static str = "/S";
+    fn emb(x: i64) -> Self { format!("s{x}") }
+}
+/// a `BuildHasher` other than the default one: every key hashes to 0
+#[derive(Default, Clone)]
+pub struct ZeroHasher;
+impl Hasher for ZeroHasher {
+    fn finish(&self) -> u64 { 0 }
+    fn write(&mut self, _bytes: &[u8]) {}
+}
+
+fn emb_all<T: Elem>(a: &[i64]) -> Vec<T> { a.iter().map(|x| T::emb(*x)).collect() }
+fn emb_kv<T: Elem>(a: &[(i64, i64)]) -> Vec<(T, T)> { a.iter().map(|(k, v)| (T::emb(*k), T::emb(*v))).collect() }
+fn emb_grp<T: Elem>(a: &[(i64, Vec<i64>)]) -> Vec<(T, Vec<T>)> {
+    a.iter().map(|(k, vs)| (T::emb(*k), emb_all::<T>(vs))).collect()
+}
+
+pub fn enc_ints(a: &[i64]) -> String {
     if a.is_empty() { "-".into() } else { a.iter().map(|x| x.to_string()).collect::<Vec<_>>().join(",") }
 }
-fn enc_kv(a: &[(i64, i64)]) -> String {
+pub fn enc_kv(a: &[(i64, i64)]) -> String {
     if a.is_empty() { "-".into() } else { a.iter().map(|(k, v)| format!("{k}:{v}")).collect::<Vec<_>>().join(",") }
 }
 fn enc_grp(a: &[(i64, Vec<i64>)]) -> String {
@@ -48,26 +105,28 @@ fn enc_grp(a: &[(i64, Vec<i64>)]) -> String {
             .join(",")
     }
 }
-fn verdict(r: Result<(), String>) -> (&'static str, bool) {
+pub fn verdict(r: Result<(), String>) -> (&'static str, bool) {
     match r { Ok(()) => ("PASS", true), Err(_) => ("PANIC", false) }
 }
 fn sorted<T: Ord + Clone>(a: &[T]) -> Vec<T> { let mut v = a.to_vec(); v.sort(); v }
 
-fn one_eq(cx: &mut Ctx, a: &[i64], b: &[i64]) {
-    let (s, pass) = verdict(guarded(|| assert_collections_equal(a, b)));
+fn one_eq<T: Elem>(cx: &mut Ctx, a: &[i64], b: &[i64]) {
+    let (ta, tb) = (emb_all::<T>(a), emb_all::<T>(b));
+    let (s, pass) = verdict(guarded(|| assert_collections_equal(&ta, &tb)));
     let nt = !a.is_empty() && !b.is_empty();
-    let i = cx.case(format!("ASSERT eq {} | {}", enc_ints(a), enc_ints(b)), s.into(), nt);
-    cx.count(if pass { "eq:pass" } else { "eq:panic" });
+    let i = cx.case(format!("ASSERT eq{} {} | {}", T::SUF, enc_ints(a), enc_ints(b)), s.into(), nt);
+    cx.count(&format!("eq{}:{}", T::SUF, if pass { "pass" } else { "panic" }));
     if pass != (a == b) {
         cx.oracle_fail(i, "eq-iff-sequence-equal", format!("passes={pass} but a==b is {}", a == b));
     }
 }
-fn one_unord(cx: &mut Ctx, a: &[i64], b: &[i64]) {
-    let (s, pass) = verdict(guarded(|| assert_collections_unordered_equal(a, b)));
+fn one_unord<T: Elem>(cx: &mut Ctx, a: &[i64], b: &[i64]) {
+    let (ta, tb) = (emb_all::<T>(a), emb_all::<T>(b));
+    let (s, pass) = verdict(guarded(|| assert_collections_unordered_equal(&ta, &tb)));
     let want = sorted(a) == sorted(b);
     let nt = a.len() >= 2 && b.len() >= 2;
-    let i = cx.case(format!("ASSERT unord {} | {}", enc_ints(a), enc_ints(b)), s.into(), nt);
-    cx.count(if pass { "unord:pass" } else { "unord:panic" });
+    let i = cx.case(format!("ASSERT unord{} {} | {}", T::SUF, enc_ints(a), enc_ints(b)), s.into(), nt);
+    cx.count(&format!("unord{}:{}", T::SUF, if pass { "pass" } else { "panic" }));
     if pass != want {
         let sig = if pass { "unord-accepts-different-multiplicity" } else { "unord-rejects-equal-multisets" };
         cx.oracle_fail(i, sig, format!("passes={pass}, multiset-equal={want}"));
@@ -78,12 +137,13 @@ fn keys_nodup<T>(a: &[(i64, T)]) -> bool {
     ks.sort();
     ks.windows(2).all(|w| w[0] != w[1])
 }
-fn one_kv(cx: &mut Ctx, a: &[(i64, i64)], b: &[(i64, i64)]) {
-    let (s, pass) = verdict(guarded(|| assert_kv_collections_equal(a.to_vec(), b.to_vec())));
+fn one_kv<T: Elem>(cx: &mut Ctx, a: &[(i64, i64)], b: &[(i64, i64)]) {
+    let (ta, tb) = (emb_kv::<T>(a), emb_kv::<T>(b));
+    let (s, pass) = verdict(guarded(|| assert_kv_collections_equal(ta, tb)));
     let want = sorted(a) == sorted(b);
     let nt = a.len() >= 2 && b.len() >= 2;
-    let i = cx.case(format!("ASSERT kv {} | {}", enc_kv(a), enc_kv(b)), s.into(), nt);
-    cx.count(if pass { "kv:pass" } else { "kv:panic" });
+    let i = cx.case(format!("ASSERT kv{} {} | {}", T::SUF, enc_kv(a), enc_kv(b)), s.into(), nt);
+    cx.count(&format!("kv{}:{}", T::SUF, if pass { "pass" } else { "panic" }));
     if pass {
         // the path repaired by the fix: rows of a repeated key in a different relative order
         let by_key = |x: &[(i64, i64)]| { let mut v = x.to_vec(); v.sort_by_key(|r| r.0); v };
@@ -101,64 +161,72 @@ fn one_kv(cx: &mut Ctx, a: &[(i64, i64)], b: &[(i64, i64)]) {
         cx.oracle_fail(i, sig, format!("passes={pass}, multiset-equal={want}"));
     }
 }
-fn one_grp(cx: &mut Ctx, a: &[(i64, Vec<i64>)], b: &[(i64, Vec<i64>)]) {
-    let (s, pass) = verdict(guarded(|| assert_grouped_kv_equal(a.to_vec(), b.to_vec())));
+fn one_grp<T: Elem>(cx: &mut Ctx, a: &[(i64, Vec<i64>)], b: &[(i64, Vec<i64>)]) {
+    let (ta, tb) = (emb_grp::<T>(a), emb_grp::<T>(b));
+    let (s, pass) = verdict(guarded(|| assert_grouped_kv_equal(ta, tb)));
     let nt = !a.is_empty() && !b.is_empty();
-    let i = cx.case(format!("ASSERT grp {} | {}", enc_grp(a), enc_grp(b)), s.into(), nt);
-    cx.count(if pass { "grp:pass" } else { "grp:panic" });
+    let i = cx.case(format!("ASSERT grp{} {} | {}", T::SUF, enc_grp(a), enc_grp(b)), s.into(), nt);
+    cx.count(&format!("grp{}:{}", T::SUF, if pass { "pass" } else { "panic" }));
     let keys = |x: &[(i64, Vec<i64>)]| sorted(&x.iter().map(|r| r.0).collect::<Vec<_>>());
     let flat = |x: &[(i64, Vec<i64>)]| {
         sorted(&x.iter().flat_map(|(k, vs)| vs.iter().map(move |v| (*k, *v))).collect::<Vec<_>>())
     };
-    // reference for EVERY input: equal as multisets of groups (key, multiset of values)
+    // equal as multisets of groups (key, multiset of values): every group's values sorted, then the rows sorted
     let norm = |x: &[(i64, Vec<i64>)]| {
         let mut v: Vec<(i64, Vec<i64>)> = x.iter().map(|(k, vs)| (*k, sorted(vs))).collect();
         v.sort();
         v
     };
-    let want = norm(a) == norm(b);
-    let nodup = keys_nodup(a) || keys_nodup(b);
-    if nodup {
-        // cross-check of the oracle itself on grouped data: the property's right-hand side, literally
-        // (same multiset of keys and, for every key, every group of that key on one side is
-        // multiset-equal to every group of that key on the other side)
-        let rhs = keys(a) == keys(b)
+    let same_groups = norm(a) == norm(b);
+    if keys_nodup(a) && keys_nodup(b) {
+        // GROUPED DATA (one row per key on both sides): the property's right-hand side, literally —
+        // the same keys and, for every key, the same multiset of values
+        cx.count("grp:grouped-data(unique keys on both sides; oracle applies)");
+        let want = keys(a) == keys(b)
             && a.iter().all(|(k, vs)| b.iter().filter(|(k2, _)| k2 == k).all(|(_, ws)| sorted(vs) == sorted(ws)));
-        if rhs != want {
-            cx.oracle_fail(i, "grp-oracle-inconsistent", "rhs and normal-form equality differ".into());
+        if want != same_groups {
+            cx.oracle_fail(i, "grp-oracle-inconsistent", "right-hand side and normal-form equality differ on grouped data".into());
+        }
+        if pass != want {
+            let sig = if !pass {
+                "grp-rejects-equal"
+            } else if keys(a) == keys(b) && a.iter().all(|(k, vs)| b.iter().filter(|(k2, _)| k2 == k).all(|(_, ws)| {
+                let (mut x, mut y) = (sorted(vs), sorted(ws)); x.dedup(); y.dedup(); x == y })) {
+                // same keys, per key the same SET of values: only the multiplicities differ
+                "grp-accepts-different-multiplicity"
+            } else {
+                "grp-accepts-unequal"
+            };
+            cx.oracle_fail(i, sig, format!("grouped data (unique keys): passes={pass}, same keys and per key the same multiset of values={want}"));
         }
     } else {
-        cx.count("grp:repeated-key-on-both-sides");
-        if pass { cx.count("grp:pass(repeated key on both sides)"); }
+        // a key occurs in several rows of a side: not grouped data, outside the property's iff — NO oracle.
+        // The real answer is compared with the Lean model only; the counters relate it to the two readings.
+        cx.count("grp:repeated-key(no oracle; model correspondence only)");
+        let union_reading = {
+            let mut ka = keys(a); ka.dedup();
+            let mut kb = keys(b); kb.dedup();
+            ka == kb && flat(a) == flat(b)
+        };
+        if pass { cx.count("grp:repeated-key:pass"); }
+        if pass != same_groups { cx.count("grp:repeated-key:answer-differs-from-multiset-of-groups-reading(not an oracle)"); }
+        if pass != union_reading { cx.count("grp:repeated-key:answer-differs-from-union-of-values-reading(not an oracle)"); }
+        if pass && flat(a) != flat(b) { cx.count("grp:repeated-key:accepted-with-different-flattened-rows(not an oracle)"); }
         if pass && a.len() == b.len() {
-            // the path repaired by the fix: groups of a repeated key listed in a different relative order
+            // the path repaired by the second grouped fix: groups of a repeated key listed in a different relative order
             let by_key = |x: &[(i64, Vec<i64>)]| {
                 let mut v: Vec<(i64, Vec<i64>)> = x.iter().map(|(k, vs)| (*k, sorted(vs))).collect();
                 v.sort_by_key(|r| r.0);
                 v
             };
-            if by_key(a) != by_key(b) { cx.count("grp:pass(equal-key groups in different relative order)"); }
+            if by_key(a) != by_key(b) { cx.count("grp:repeated-key:pass(equal-key groups in different relative order)"); }
         }
-    }
-    if pass != want {
-        let sig = if pass {
-            "grp-accepts-different-multiplicity"
-        } else if !keys_nodup(a) {
-            "grp-rejects-equal-multisets-with-repeated-key"
-        } else {
-            "grp-rejects-equal"
-        };
-        cx.oracle_fail(i, sig, format!("passes={pass}, equal as multisets of groups={want}"));
-    }
-    // weaker consequences, kept as independent second references (theorems assertGrouped_sound_keys / _flatten)
-    if pass && (keys(a) != keys(b) || flat(a) != flat(b)) {
-        cx.oracle_fail(i, "grp-accepts-different-rows", format!("passes although keys-equal={} flattened-rows-equal={}", keys(a) == keys(b), flat(a) == flat(b)));
     }
 }
 
-fn build_map(rows: &[(i64, i64)]) -> HashMap<i64, i64> {
-    let mut m = HashMap::new();
-    for (k, v) in rows { m.insert(*k, *v); }
+fn build_map<T: Elem, S: BuildHasher + Default>(rows: &[(i64, i64)]) -> HashMap<T, T, S> {
+    let mut m = HashMap::with_hasher(S::default());
+    for (k, v) in rows { m.insert(T::emb(*k), T::emb(*v)); }
     m
 }
 /// reference for a map built by inserts: the LAST value of every key, sorted by key (no hash map)
@@ -170,14 +238,14 @@ fn last_wins(rows: &[(i64, i64)]) -> Vec<(i64, i64)> {
     out.sort();
     out
 }
-fn one_maps(cx: &mut Ctx, a: &[(i64, i64)], b: &[(i64, i64)]) {
-    let (ma, mb) = (build_map(a), build_map(b));
+fn one_maps_with<T: Elem, S: BuildHasher + Default>(cx: &mut Ctx, a: &[(i64, i64)], b: &[(i64, i64)]) {
+    let (ma, mb) = (build_map::<T, S>(a), build_map::<T, S>(b));
     let (s, pass) = verdict(guarded(|| assert_maps_equal(&ma, &mb)));
     let (ra, rb) = (last_wins(a), last_wins(b));
     let want = ra == rb;
     let nt = ra.len() >= 2 && rb.len() >= 2;
-    let i = cx.case(format!("ASSERT maps {} | {}", enc_kv(a), enc_kv(b)), s.into(), nt);
-    cx.count(if pass { "maps:pass" } else { "maps:panic" });
+    let i = cx.case(format!("ASSERT maps{} {} | {}", T::SUF, enc_kv(a), enc_kv(b)), s.into(), nt);
+    cx.count(&format!("maps{}:{}", T::SUF, if pass { "pass" } else { "panic" }));
     if ma.len() != ra.len() || mb.len() != rb.len() {
         cx.oracle_fail(i, "maps-oracle-inconsistent", "reference map size differs from HashMap size".into());
     }
@@ -185,6 +253,32 @@ fn one_maps(cx: &mut Ctx, a: &[(i64, i64)], b: &[(i64, i64)]) {
         let sig = if pass { "maps-accepts-unequal" } else { "maps-rejects-equal" };
         cx.oracle_fail(i, sig, format!("passes={pass}, same entries={want}"));
     }
+}
+fn one_maps(cx: &mut Ctx, a: &[(i64, i64)], b: &[(i64, i64)]) {
+    one_maps_with::<i64, std::collections::hash_map::RandomState>(cx, a, b);
+}
+/// the typed variants of one abstract case: `P` (with the all-colliding hasher for maps) and `String`
+fn one_maps_typed(cx: &mut Ctx, ty: usize, a: &[(i64, i64)], b: &[(i64, i64)]) {
+    match ty {
+        0 => one_maps(cx, a, b),
+        1 => one_maps_with::<P, BuildHasherDefault<ZeroHasher>>(cx, a, b),
+        _ => one_maps_with::<String, std::collections::hash_map::RandomState>(cx, a, b),
+    }
+}
+fn one_eq_typed(cx: &mut Ctx, ty: usize, a: &[i64], b: &[i64]) {
+    match ty { 0 => one_eq::<i64>(cx, a, b), 1 => one_eq::<P>(cx, a, b), _ => one_eq::<String>(cx, a, b) }
+}
+fn one_unord_typed(cx: &mut Ctx, ty: usize, a: &[i64], b: &[i64]) {
+    match ty { 0 => one_unord::<i64>(cx, a, b), 1 => one_unord::<P>(cx, a, b), _ => one_unord::<String>(cx, a, b) }
+}
+fn one_kv_typed(cx: &mut Ctx, ty: usize, a: &[(i64, i64)], b: &[(i64, i64)]) {
+    match ty { 0 => one_kv::<i64>(cx, a, b), 1 => one_kv::<P>(cx, a, b), _ => one_kv::<String>(cx, a, b) }
+}
+fn one_grp_typed(cx: &mut Ctx, ty: usize, a: &[(i64, Vec<i64>)], b: &[(i64, Vec<i64>)]) {
+    match ty { 0 => one_grp::<i64>(cx, a, b), 1 => one_grp::<P>(cx, a, b), _ => one_grp::<String>(cx, a, b) }
+}
+fn one_contains_typed(cx: &mut Ctx, ty: usize, a: &[i64], x: i64) {
+    match ty { 0 => one_contains::<i64>(cx, a, x), 1 => one_contains::<P>(cx, a, x), _ => one_contains::<String>(cx, a, x) }
 }
 fn one_size(cx: &mut Ctx, a: &[i64], n: usize) {
     let (s, pass) = verdict(guarded(|| assert_collection_size(a, n)));
@@ -194,10 +288,11 @@ fn one_size(cx: &mut Ctx, a: &[i64], n: usize) {
         cx.oracle_fail(i, "size-iff-length", format!("passes={pass}, len={} n={n}", a.len()));
     }
 }
-fn one_contains(cx: &mut Ctx, a: &[i64], x: i64) {
-    let (s, pass) = verdict(guarded(|| assert_contains(a, &x)));
-    let i = cx.case(format!("ASSERT contains {} {x}", enc_ints(a)), s.into(), a.len() >= 2);
-    cx.count(if pass { "contains:pass" } else { "contains:panic" });
+fn one_contains<T: Elem>(cx: &mut Ctx, a: &[i64], x: i64) {
+    let (ta, tx) = (emb_all::<T>(a), T::emb(x));
+    let (s, pass) = verdict(guarded(|| assert_contains(&ta, &tx)));
+    let i = cx.case(format!("ASSERT contains{} {} {x}", T::SUF, enc_ints(a)), s.into(), a.len() >= 2);
+    cx.count(&format!("contains{}:{}", T::SUF, if pass { "pass" } else { "panic" }));
     let occ = a.iter().filter(|y| **y == x).count();
     if pass != (occ > 0) {
         cx.oracle_fail(i, "contains-iff-member", format!("passes={pass}, occurrences={occ}"));
@@ -239,6 +334,13 @@ fn one_pred(cx: &mut Ctx, which: &str, p: Pred, a: &[i64]) {
     }
 }
 
+/// SIZE of an exhaustive scope: quick / thorough. The search tier uses the thorough sizes (`Ctx::budget` would
+/// multiply the quick value by ten, and a scope parameter is an exponent: length <= 40 over 3 symbols never ends
+/// and exhausts the machine's memory first); only iteration counts of random blocks go through `cx.budget`.
+pub fn scope(cx: &Ctx, quick: usize, thorough: usize) -> usize {
+    if cx.tier == crate::ctx::Tier::Quick { quick } else { thorough }
+}
+
 fn all_seqs<T: Clone>(alpha: &[T], max_len: usize) -> Vec<Vec<T>> {
     let mut out: Vec<Vec<T>> = vec![vec![]];
     let mut frontier: Vec<Vec<T>> = vec![vec![]];
@@ -259,20 +361,20 @@ fn all_seqs<T: Clone>(alpha: &[T], max_len: usize) -> Vec<Vec<T>> {
 
 pub fn run(cx: &mut Ctx) {
     // corpus: minimised past failures first
-    one_unord(cx, &[1, 1, 2], &[1, 2, 2]);
-    one_grp(cx, &[(0, vec![1, 1])], &[(0, vec![1])]);
-    one_grp(cx, &[(0, vec![1, 1, 2])], &[(0, vec![1, 2, 2])]);
-    one_kv(cx, &[(1, 0), (1, 1)], &[(1, 1), (1, 0)]); // rejected before the kv fix
-    one_kv(cx, &[(1, 0), (1, 0), (1, 1)], &[(1, 0), (1, 1), (1, 1)]); // greedy match must consume partners
-    one_kv(cx, &[(0, 0), (1, 1)], &[(0, 0), (0, 1)]); // partner must have the same key
-    one_kv(cx, &[(2, 5), (1, 7), (1, 8)], &[(1, 8), (1, 7), (2, 5)]);
-    one_grp(cx, &[(0, vec![1, 2])], &[(0, vec![1, 2, 2])]); // actual group is a proper sub-multiset, same set
-    one_grp(cx, &[(0, vec![1]), (0, vec![2])], &[(0, vec![2]), (0, vec![1])]); // repeated key, same groups: rejected before the second grouped fix
-    one_grp(cx, &[(0, vec![1]), (0, vec![2])], &[(0, vec![1]), (0, vec![2])]);
-    one_grp(cx, &[(0, vec![1, 2]), (0, vec![])], &[(0, vec![1]), (0, vec![2])]); // same keys, same flattened rows, different groups
-    one_grp(cx, &[(0, vec![1]), (0, vec![1]), (0, vec![2])], &[(0, vec![1]), (0, vec![2]), (0, vec![2])]); // partners are consumed
-    one_grp(cx, &[(0, vec![1, 2]), (0, vec![2, 1]), (1, vec![3])], &[(1, vec![3]), (0, vec![2, 1]), (0, vec![2, 1])]);
-    one_grp(cx, &[(0, vec![1]), (1, vec![2])], &[(0, vec![1]), (0, vec![2])]); // partner must have the same key
+    one_unord::<i64>(cx, &[1, 1, 2], &[1, 2, 2]);
+    one_grp::<i64>(cx, &[(0, vec![1, 1])], &[(0, vec![1])]);
+    one_grp::<i64>(cx, &[(0, vec![1, 1, 2])], &[(0, vec![1, 2, 2])]);
+    one_kv::<i64>(cx, &[(1, 0), (1, 1)], &[(1, 1), (1, 0)]); // rejected before the kv fix
+    one_kv::<i64>(cx, &[(1, 0), (1, 0), (1, 1)], &[(1, 0), (1, 1), (1, 1)]); // greedy match must consume partners
+    one_kv::<i64>(cx, &[(0, 0), (1, 1)], &[(0, 0), (0, 1)]); // partner must have the same key
+    one_kv::<i64>(cx, &[(2, 5), (1, 7), (1, 8)], &[(1, 8), (1, 7), (2, 5)]);
+    one_grp::<i64>(cx, &[(0, vec![1, 2])], &[(0, vec![1, 2, 2])]); // actual group is a proper sub-multiset, same set
+    one_grp::<i64>(cx, &[(0, vec![1]), (0, vec![2])], &[(0, vec![2]), (0, vec![1])]); // repeated key, same groups: rejected before the second grouped fix
+    one_grp::<i64>(cx, &[(0, vec![1]), (0, vec![2])], &[(0, vec![1]), (0, vec![2])]);
+    one_grp::<i64>(cx, &[(0, vec![1, 2]), (0, vec![])], &[(0, vec![1]), (0, vec![2])]); // same keys, same flattened rows, different groups
+    one_grp::<i64>(cx, &[(0, vec![1]), (0, vec![1]), (0, vec![2])], &[(0, vec![1]), (0, vec![2]), (0, vec![2])]); // partners are consumed
+    one_grp::<i64>(cx, &[(0, vec![1, 2]), (0, vec![2, 1]), (1, vec![3])], &[(1, vec![3]), (0, vec![2, 1]), (0, vec![2, 1])]);
+    one_grp::<i64>(cx, &[(0, vec![1]), (1, vec![2])], &[(0, vec![1]), (0, vec![2])]); // partner must have the same key
     one_maps(cx, &[(1, 1), (2, 2)], &[(2, 2), (1, 1)]);
     one_maps(cx, &[(1, 1), (2, 2)], &[(1, 1), (3, 2)]); // same size, expected key missing from actual
     one_maps(cx, &[(1, 1), (2, 2)], &[(1, 1), (2, 3)]); // same keys, one value differs
@@ -281,31 +383,47 @@ pub fn run(cx: &mut Ctx) {
     one_maps(cx, &[(1, 0), (1, 1)], &[(1, 1)]);         // overwritten entry
     one_size(cx, &[], 0);
     one_size(cx, &[1, 2, 3], 2);
-    one_contains(cx, &[], 0);
-    one_contains(cx, &[1, 2, 3], 3);
+    one_contains::<i64>(cx, &[], 0);
+    one_contains::<i64>(cx, &[1, 2, 3], 3);
     one_pred(cx, "all", Pred::Even, &[]);
     one_pred(cx, "any", Pred::Even, &[]);
     one_pred(cx, "none", Pred::Even, &[]);
     one_pred(cx, "all", Pred::Even, &[2, 4, 5]);
     one_pred(cx, "any", Pred::Even, &[1, 3, 4]);
     one_pred(cx, "none", Pred::Even, &[1, 3, 4]);
+    // review E (round 3): elements that are unequal but PRINT alike (`P(0,0)` / `P(0,1)` = integers 0 / 1) and
+    // collide in the hasher; a comparison keyed by `Debug` output or by hash would accept these
+    one_eq::<P>(cx, &[0], &[1]);
+    one_eq::<P>(cx, &[0, 1], &[0, 1]);
+    one_unord::<P>(cx, &[0, 0, 1], &[0, 1, 1]);
+    one_unord::<P>(cx, &[0, 1], &[1, 0]);
+    one_kv::<P>(cx, &[(0, 0), (0, 1)], &[(0, 1), (0, 1)]);
+    one_kv::<P>(cx, &[(0, 0), (1, 0)], &[(0, 0), (0, 0)]);
+    one_grp::<P>(cx, &[(0, vec![0, 0, 1])], &[(0, vec![0, 1, 1])]);
+    one_grp::<P>(cx, &[(0, vec![0])], &[(1, vec![0])]);
+    one_contains::<P>(cx, &[0, 2], 1);
+    one_maps_typed(cx, 1, &[(0, 0), (1, 1)], &[(0, 0), (1, 0)]);
+    one_maps_typed(cx, 1, &[(0, 0)], &[(1, 0)]);
+    one_kv::<String>(cx, &[(10, 1), (2, 1)], &[(2, 1), (10, 1)]); // "s10" < "s2": the sort order is not the numeric one
+    one_grp::<String>(cx, &[(10, vec![1, 2]), (2, vec![3])], &[(2, vec![3]), (10, vec![2, 1])]);
+    crate::c20_files::corpus(cx);
 
     // exhaustive small scope
-    let n = cx.budget(4, 5);
+    let n = scope(cx, 4, 5);
     let seqs = all_seqs(&[0i64, 1, 2], n);
     for a in &seqs {
         for b in &seqs {
-            one_eq(cx, a, b);
-            one_unord(cx, a, b);
+            one_eq::<i64>(cx, a, b);
+            one_unord::<i64>(cx, a, b);
         }
     }
     cx.exhaustive_blocks.push(format!("eq,unord: all pairs of sequences of length <= {n} over 3 symbols ({} pairs)", seqs.len() * seqs.len()));
     let kv_alpha: Vec<(i64, i64)> = vec![(0, 0), (0, 1), (1, 0), (1, 1)];
-    let kn = cx.budget(4, 5);
+    let kn = scope(cx, 4, 5);
     let kvs = all_seqs(&kv_alpha, kn);
     for a in &kvs {
         for b in &kvs {
-            one_kv(cx, a, b);
+            one_kv::<i64>(cx, a, b);
         }
     }
     cx.exhaustive_blocks.push(format!("kv: all pairs of row sequences of length <= {kn} over keys {{0,1}} x values {{0,1}} ({} pairs)", kvs.len() * kvs.len()));
@@ -320,7 +438,7 @@ pub fn run(cx: &mut Ctx) {
     let gs = all_seqs(&grp_alpha, 2);
     for a in &gs {
         for b in &gs {
-            one_grp(cx, a, b);
+            one_grp::<i64>(cx, a, b);
         }
     }
     cx.exhaustive_blocks.push(format!("grp: all pairs of grouped sequences of length <= 2 over keys {{0,1}} x groups of length <= 3 over {{0,1}} ({} pairs)", gs.len() * gs.len()));
@@ -329,7 +447,7 @@ pub fn run(cx: &mut Ctx) {
     let rk = all_seqs(&rk_alpha, 3);
     for a in &rk {
         for b in &rk {
-            one_grp(cx, a, b);
+            one_grp::<i64>(cx, a, b);
         }
     }
     cx.exhaustive_blocks.push(format!("grp: all pairs of grouped sequences of length <= 3 over the rows 0:[] 0:[1] 0:[2] 0:[1,2] 0:[2,1] 1:[1] (repeated keys; {} pairs)", rk.len() * rk.len()));
@@ -346,35 +464,77 @@ pub fn run(cx: &mut Ctx) {
     let small = all_seqs(&[0i64, 1, 2], 4);
     for a in &small {
         for n in 0..=5 { one_size(cx, a, n); }
-        for x in 0..=3 { one_contains(cx, a, x); }
+        for x in 0..=3 { one_contains::<i64>(cx, a, x); }
         for p in preds {
             for which in ["all", "any", "none"] { one_pred(cx, which, p, a); }
         }
     }
     cx.exhaustive_blocks.push(format!("size (n <= 5), contains (x <= 3), all/any/none ({} predicates): all sequences of length <= 4 over 3 symbols ({} sequences)", preds.len(), small.len()));
 
+    // the same assertions at the types `P` (lossy Debug, weak Hash) and `String`: smaller scopes
+    let tn = scope(cx, 3, 4);
+    let tseqs = all_seqs(&[0i64, 1, 2], tn);
+    let tkvs = all_seqs(&kv_alpha, tn);
+    // grouped DATA: one row per key (key 0, or keys 0 and 1), groups of length <= 3 over {0,1}
+    let tgroups = all_seqs(&[0i64, 1], scope(cx, 2, 3));
+    let mut tgs: Vec<Vec<(i64, Vec<i64>)>> = vec![vec![]];
+    for g in &tgroups { tgs.push(vec![(0, g.clone())]); tgs.push(vec![(1, g.clone())]); }
+    for g in &tgroups { for h in &tgroups { tgs.push(vec![(0, g.clone()), (1, h.clone())]); tgs.push(vec![(1, h.clone()), (0, g.clone())]); } }
+    let tms = all_seqs(&kv_alpha, 2);
+    for ty in 1..=2usize {
+        for a in &tseqs {
+            for b in &tseqs {
+                one_eq_typed(cx, ty, a, b);
+                one_unord_typed(cx, ty, a, b);
+            }
+            for x in 0..=3 { one_contains_typed(cx, ty, a, x); }
+        }
+        for a in &tkvs { for b in &tkvs { one_kv_typed(cx, ty, a, b); } }
+        for a in &tgs { for b in &tgs { one_grp_typed(cx, ty, a, b); } }
+        for a in &tms { for b in &tms { one_maps_typed(cx, ty, a, b); } }
+    }
+    cx.exhaustive_blocks.push(format!("types P(i64,i64) [lossy Debug, weak Hash; maps with an all-colliding BuildHasher] and String: eq, unord: all pairs of sequences of length <= {tn} over 3 symbols ({} pairs per type); contains (x <= 3); kv: all pairs of row sequences of length <= {tn} over keys {{0,1}} x values {{0,1}} ({} pairs per type); grp: all pairs of grouped DATA (one row per key) over keys {{0,1}} x groups of length <= 2 (thorough: 3) over {{0,1}} ({} pairs per type); maps: insert sequences of length <= 2 ({} pairs per type)", tseqs.len() * tseqs.len(), tkvs.len() * tkvs.len(), tgs.len() * tgs.len(), tms.len() * tms.len()));
+    // grouped DATA at i64 beyond the blocks above: one row per key, three keys
+    let g2 = all_seqs(&[0i64, 1], scope(cx, 1, 2));
+    let mut g3: Vec<Vec<(i64, Vec<i64>)>> = vec![];
+    for x in &g2 { for y in &g2 { for z in &g2 {
+        g3.push(vec![(0, x.clone()), (1, y.clone()), (2, z.clone())]);
+        g3.push(vec![(2, z.clone()), (0, x.clone()), (1, y.clone())]);
+    } } }
+    for a in &g3 { for b in &g3 { one_grp::<i64>(cx, a, b); } }
+    cx.exhaustive_blocks.push(format!("grp (grouped data, oracle applies): three keys, one row each, groups of length <= 1 (thorough: 2) over {{0,1}}, two row orders ({} pairs)", g3.len() * g3.len()));
+
+    // the file assertions (assert_jsonl_equals / assert_csv_equals)
+    crate::c20_files::exhaustive(cx);
+
+    // long runs: 100..=300 rows / groups / elements sharing ONE key (or one value domain), at all three types
+    long_runs(cx);
+    crate::c20_files::random(cx);
+
     // random longer pairs: b is a perturbation of a (shuffle / duplicate-swap / replace / drop)
     let rounds = cx.budget(1500, 30000);
-    for _ in 0..rounds {
+    for round in 0..rounds {
+        // every third round runs the generic assertions at `P`, every third at `String`
+        let ty = round % 3;
         let len = cx.rng.below(30);
         let dom = 1 + cx.rng.below(6) as i64;
         let a: Vec<i64> = (0..len).map(|_| cx.rng.range(0, dom)).collect();
         let mut b = a.clone();
         perturb(cx, &mut b, dom);
-        one_eq(cx, &a, &b);
-        one_unord(cx, &a, &b);
+        one_eq_typed(cx, ty, &a, &b);
+        one_unord_typed(cx, ty, &a, &b);
         let ka: Vec<(i64, i64)> = a.iter().map(|x| (x % 3, x / 3)).collect();
         let kb: Vec<(i64, i64)> = b.iter().map(|x| (x % 3, x / 3)).collect();
-        one_kv(cx, &ka, &kb);
+        one_kv_typed(cx, ty, &ka, &kb);
         let mut ga = group(&a);
         let mut gb = group(&b);
         if cx.rng.chance(1, 2) { gb.reverse(); }
-        one_grp(cx, &ga, &gb);
+        one_grp_typed(cx, ty, &ga, &gb);
         // not grouped data: split one group into two rows with the same key, on one or both sides
         if cx.rng.chance(1, 4) {
             split_group(cx, &mut gb);
             if cx.rng.chance(1, 2) { split_group(cx, &mut ga); }
-            one_grp(cx, &ga, &gb);
+            one_grp::<i64>(cx, &ga, &gb);
         }
         // a second key/value stream with more keys and values: rows k*4+v, 4 keys x 4 values
         let len2 = cx.rng.below(14);
@@ -383,16 +543,16 @@ pub fn run(cx: &mut Ctx) {
         perturb(cx, &mut b2, 16);
         let ka2: Vec<(i64, i64)> = a2.iter().map(|x| (x % 4, x / 4)).collect();
         let kb2: Vec<(i64, i64)> = b2.iter().map(|x| (x % 4, x / 4)).collect();
-        one_kv(cx, &ka2, &kb2);
+        one_kv_typed(cx, ty, &ka2, &kb2);
         // maps from the same two row streams (a repeated key overwrites)
-        one_maps(cx, &ka2, &kb2);
-        one_maps(cx, &ka, &kb);
+        one_maps_typed(cx, ty, &ka2, &kb2);
+        one_maps_typed(cx, ty, &ka, &kb);
         // size / contains / predicates on the perturbed sequence (negative values included)
         let sh: Vec<i64> = b.iter().map(|x| x - 2).collect();
         let n = if cx.rng.chance(1, 2) { sh.len() } else { cx.rng.below(32) };
         one_size(cx, &sh, n);
         let x = cx.rng.range(-3, dom);
-        one_contains(cx, &sh, x);
+        one_contains_typed(cx, ty, &sh, x);
         let p = match cx.rng.below(8) {
             0 => Pred::True, 1 => Pred::False, 2 => Pred::Even, 3 => Pred::Odd, 4 => Pred::Neg,
             5 => Pred::Lt(cx.rng.range(-3, dom)), 6 => Pred::Eq(cx.rng.range(-3, dom)), _ => Pred::Ne(cx.rng.range(-3, dom)),
@@ -406,7 +566,7 @@ pub fn run(cx: &mut Ctx) {
             let mut gb2 = ga2.clone();
             for i in (1..gb2.len()).rev() { let j = cx.rng.below(i + 1); gb2.swap(i, j); }
             for g in gb2.iter_mut() { if cx.rng.chance(1, 2) { g.1.reverse(); } }
-            one_grp(cx, &ga2, &gb2);
+            one_grp_typed(cx, ty, &ga2, &gb2);
             if !gb2.is_empty() {
                 let i = cx.rng.below(gb2.len());
                 if cx.rng.chance(1, 2) { gb2[i].1.push(cx.rng.range(0, 2)); }
@@ -414,10 +574,90 @@ pub fn run(cx: &mut Ctx) {
                     // move one value between two groups of the same key: flattened rows stay equal
                     if let Some(v) = gb2[i].1.pop() { gb2[j].1.push(v); }
                 }
-                one_grp(cx, &ga2, &gb2);
+                one_grp::<i64>(cx, &ga2, &gb2);
             }
         }
     }
+}
+
+fn shuffle<T>(cx: &mut Ctx, v: &mut [T]) {
+    for i in (1..v.len()).rev() { let j = cx.rng.below(i + 1); v.swap(i, j); }
+}
+
+/// Runs of 100..=300 rows / groups that share ONE key, and collections of 100..=300 elements over a small
+/// domain: `b` = `a` shuffled (must pass), then one value changed (must panic), then one row dropped and
+/// another duplicated (same length, same set). A position-wise fallback for long runs, a comparison keyed by
+/// `Debug` output or by hash value, or a counter that saturates would show here.
+fn long_runs(cx: &mut Ctx) {
+    let rounds = cx.budget(8, 80);
+    for round in 0..rounds {
+        let ty = round % 3;
+        let n = 100 + cx.rng.below(201);
+        let dom = *cx.rng.pick(&[2i64, 5, 1000]);
+        cx.count("long-run:rounds");
+        // unordered: n elements
+        let a: Vec<i64> = (0..n).map(|_| cx.rng.range(0, dom - 1)).collect();
+        let mut b = a.clone();
+        shuffle(cx, &mut b);
+        one_unord_typed(cx, ty, &a, &b);
+        one_eq_typed(cx, ty, &a, &b);
+        let at = cx.rng.below(n);
+        let mut c = b.clone();
+        c[at] = (c[at] + 1 + cx.rng.range(0, dom - 2)) % dom; // a different value of the domain
+        one_unord_typed(cx, ty, &a, &c);
+        one_eq_typed(cx, ty, &b, &c);
+        // key/value: a run of n rows with key `k`, a few rows with other keys around it
+        let k = cx.rng.range(0, 3);
+        let mut ka: Vec<(i64, i64)> = a.iter().map(|v| (k, *v)).collect();
+        for _ in 0..cx.rng.below(4) { let kk = cx.rng.range(0, 3); let v = cx.rng.range(0, dom - 1); ka.push((kk, v)); }
+        shuffle(cx, &mut ka);
+        let mut kb = ka.clone();
+        shuffle(cx, &mut kb);
+        one_kv_typed(cx, ty, &ka, &kb);
+        let mut kc = kb.clone();
+        let at = cx.rng.below(kc.len());
+        kc[at].1 = (kc[at].1 + 1 + cx.rng.range(0, dom - 2)) % dom;
+        one_kv_typed(cx, ty, &ka, &kc);
+        // same length, same set of rows, different multiplicities (when some row of the run differs from another)
+        let mut kd = kb.clone();
+        let (i, j) = (cx.rng.below(kd.len()), cx.rng.below(kd.len()));
+        kd[i] = kd[j];
+        one_kv_typed(cx, ty, &ka, &kd);
+        // a second run of >= 100 rows with another key, so that two long runs follow each other
+        if round % 2 == 0 {
+            let m = 100 + cx.rng.below(60);
+            let mut k2a = ka.clone();
+            for _ in 0..m { let v = cx.rng.range(0, dom - 1); k2a.push((k + 1, v)); }
+            let mut k2b = k2a.clone();
+            shuffle(cx, &mut k2b);
+            one_kv_typed(cx, ty, &k2a, &k2b);
+            let at = cx.rng.below(k2b.len());
+            k2b[at].1 = (k2b[at].1 + 1 + cx.rng.range(0, dom - 2)) % dom;
+            one_kv_typed(cx, ty, &k2a, &k2b);
+        }
+        // grouped DATA (oracle applies): ONE group of n values for key k, one or two small groups for other keys
+        let mut ga: Vec<(i64, Vec<i64>)> = vec![(k, a.clone())];
+        if cx.rng.chance(1, 2) { ga.push((k + 1, vec![0, 1, 1])); }
+        if cx.rng.chance(1, 2) { ga.insert(0, (k + 2, vec![])); }
+        let mut gb: Vec<(i64, Vec<i64>)> = ga.iter().map(|(kk, vs)| { let mut w = vs.clone(); shuffle(cx, &mut w); (*kk, w) }).collect();
+        gb.reverse();
+        one_grp_typed(cx, ty, &ga, &gb);
+        let mut gc = gb.clone();
+        let gi = gc.iter().position(|g| g.0 == k).unwrap_or(0);
+        let at = cx.rng.below(n);
+        gc[gi].1[at] = (gc[gi].1[at] + 1 + cx.rng.range(0, dom - 2)) % dom;
+        one_grp_typed(cx, ty, &ga, &gc);
+        // not grouped data (no oracle, model correspondence): a run of n small groups that share key k
+        let ra: Vec<(i64, Vec<i64>)> = (0..n).map(|_| { let l = cx.rng.below(3); (k, (0..l).map(|_| cx.rng.range(0, 2)).collect()) }).collect();
+        let mut rb = ra.clone();
+        shuffle(cx, &mut rb);
+        for g in rb.iter_mut() { g.1.reverse(); }
+        one_grp_typed(cx, ty, &ra, &rb);
+        let at = cx.rng.below(n);
+        rb[at].1.push(cx.rng.range(0, 2));
+        one_grp_typed(cx, ty, &ra, &rb);
+    }
+    cx.notes.push(format!("long runs: {rounds} rounds of 100..=300 rows/groups/elements with one key, shuffled / one value changed / one row duplicated over another, types i64, P, String in turn"));
 }
 
 fn group(a: &[i64]) -> Vec<(i64, Vec<i64>)> {
